@@ -166,6 +166,9 @@ static carquet_status_t delta_decoder_read_mini_block(delta_decoder_t* dec) {
     }
 
     int bit_width = dec->bit_widths[dec->current_mini_block];
+    if (bit_width > 64) {
+        return CARQUET_ERROR_DECODE;  /* width byte from the stream; values are 64-bit */
+    }
     int mini_block_size = dec->block_size / dec->mini_blocks_per_block;
 
     if (bit_width == 0) {
